@@ -1860,6 +1860,9 @@ func (e *Enc) elemComps(t types.Type) (out []elemComp) {
 		for i := 0; i < st.NumFields(); i++ {
 			ft := st.Field(i).Type()
 			if e.subObj(ft) {
+				if e.topSpec == nil || !e.topSpec.PreciseElems {
+					e.unsup("nested element type (no precise-elements directive)")
+				}
 				// make sure the sub function is declared, and take its name
 				ref := e.subRef(t, i, Term{"0", SInt})
 				fn := strings.TrimSuffix(strings.TrimPrefix(ref.S, "("), " 0)")
